@@ -20,14 +20,14 @@ Proofs/ValidateAll.lean (`WF` structures), Proofs/ValidateRules.lean (rule syste
 for each documented rule its exception class `kind`, the position `stage` of its check, and
 what it means to violate it) and Proofs/ValidateReserved.lean (reserved names).
 
-Reserved names (fixes b159ae7, 07f4843, cb4efab).  `validate()` of DFA and NFA first refuses
-`None` as a state name and `""` as an input symbol, `validate()` of the PDA classes first refuses
+Reserved names (fixes b159ae7, 07f4843, cb4efab, f47420f).  `validate()` of DFA and NFA first
+refuses `None` as a state name or as the key of a transition row, and `""` as an input symbol, `validate()` of the PDA classes first refuses
 `""` as a stack symbol.  The state / symbol types of the model are arbitrary types; which of
 their elements stand for `None` and `""` is an explicit interpretation (`R : Reserved σ α` for
 DFA / NFA, a predicate `isEmptyStr : γ → Bool` for the stack symbols of a PDA), and the theorems
 about these four classes hold for every interpretation: `DFA.validateDef R d` is "the
-reserved-name check under `R`, then `d.validate`", `DFA.WFDef R d` is "no state is `None`, no
-input symbol is `""`, and `d.WF`".  `C19_reserved_absent`: when no name is reserved (the name
+reserved-name check under `R`, then `d.validate`", `DFA.WFDef R d` is "no state and no row key is
+`None`, no input symbol is `""`, and `d.WF`".  `C19_reserved_absent`: when no name is reserved (the name
 types of the models of C01–C17) these are `validate` and `WF`.
 
 Proved here, for all definitions (no bounds):
@@ -62,14 +62,14 @@ variable {σ α γ : Type} [DecidableEq σ] [DecidableEq α] [DecidableEq γ]
 
 /-! ## A. validation accepts exactly the well-formed definitions -/
 
-/-- DFA: no state is named `None` and no input symbol is `""` (under the interpretation `R` of
-the abstract names); every state has a row; rows use only input symbols (all of them unless
+/-- DFA: no state and no row of the table is named `None` and no input symbol is `""` (under the
+interpretation `R` of the abstract names); every state has a row; rows use only input symbols (all of them unless
 `allow_partial`) and lead to states; initial and final states are states.  (Rows keyed by
 names that are not states are allowed, as in the code.) -/
 theorem C19_dfa_validate_iff (R : Reserved σ α) (d : DFA σ α) :
     DFA.validateDef R d = .ok () ↔ DFA.WFDef R d := DFA.validateDef_eq_ok R d
 
-/-- NFA: no state is named `None` and no input symbol is `""`; rows use input symbols or `""`
+/-- NFA: no state and no row of the table is named `None` and no input symbol is `""`; rows use input symbols or `""`
 (λ) and lead to states; the initial state is a state and has a row (unless it is the only
 state); final states are states. -/
 theorem C19_nfa_validate_iff (R : Reserved σ α) (n : NFA σ α) :
@@ -359,8 +359,7 @@ local macro "other_mntm" : tactic => `(tactic| first
 theorem C19_dfa_corrupt_initial (R : Reserved σ α) (d : DFA σ α) (wf : DFA.WFDef R d) (q : σ)
     (hq : q ∉ d.states) :
     DFA.validateDef R { d with init := q } = .error (.lib .invalidStateError) := by
-  show (faValidateReserved R d.states d.syms).andThen _ = _
-  rw [wf.reservedOk, Res.ok_andThen]
+  rw [DFA.validateDef_eq_validate R wf ({ d with init := q } : DFA σ α) rfl rfl (fun _ h => h)]
   have hno := (DFA.wf_iff d).mp wf.toWF
   refine DFA.rules_correct.corrupt_raises _ .badInitial hq ?_
   intro r' hv'
@@ -370,8 +369,7 @@ theorem C19_dfa_corrupt_initial (R : Reserved σ α) (d : DFA σ α) (wf : DFA.W
 theorem C19_dfa_corrupt_final (R : Reserved σ α) (d : DFA σ α) (wf : DFA.WFDef R d) (q : σ)
     (hq : q ∉ d.states) :
     DFA.validateDef R { d with finals := q :: d.finals } = .error (.lib .invalidStateError) := by
-  show (faValidateReserved R d.states d.syms).andThen _ = _
-  rw [wf.reservedOk, Res.ok_andThen]
+  rw [DFA.validateDef_eq_validate R wf ({ d with finals := q :: d.finals } : DFA σ α) rfl rfl (fun _ h => h)]
   have hno := (DFA.wf_iff d).mp wf.toWF
   refine DFA.rules_correct.corrupt_raises _ .badFinal ⟨q, by simp, hq⟩ ?_
   intro r' hv'
@@ -382,8 +380,7 @@ name has no row either: that check comes later). -/
 theorem C19_nfa_corrupt_initial (R : Reserved σ α) (n : NFA σ α) (wf : NFA.WFDef R n) (q : σ)
     (hq : q ∉ n.states) :
     NFA.validateDef R { n with init := q } = .error (.lib .invalidStateError) := by
-  show (faValidateReserved R n.states n.syms).andThen _ = _
-  rw [wf.reservedOk, Res.ok_andThen]
+  rw [NFA.validateDef_eq_validate R wf ({ n with init := q } : NFA σ α) rfl rfl (fun _ h => h)]
   have hno := (NFA.wf_iff n).mp wf.toWF
   refine NFA.rules_correct.corrupt_raises _ .badInitial hq ?_
   intro r' hv'
@@ -393,8 +390,7 @@ theorem C19_nfa_corrupt_initial (R : Reserved σ α) (n : NFA σ α) (wf : NFA.W
 theorem C19_nfa_corrupt_final (R : Reserved σ α) (n : NFA σ α) (wf : NFA.WFDef R n) (q : σ)
     (hq : q ∉ n.states) :
     NFA.validateDef R { n with finals := q :: n.finals } = .error (.lib .invalidStateError) := by
-  show (faValidateReserved R n.states n.syms).andThen _ = _
-  rw [wf.reservedOk, Res.ok_andThen]
+  rw [NFA.validateDef_eq_validate R wf ({ n with finals := q :: n.finals } : NFA σ α) rfl rfl (fun _ h => h)]
   have hno := (NFA.wf_iff n).mp wf.toWF
   refine NFA.rules_correct.corrupt_raises _ .badFinal ⟨q, by simp, hq⟩ ?_
   intro r' hv'
@@ -560,11 +556,17 @@ end operators
 /-- DFA / the row of a state removed → `MissingStateError` (the first check after the reserved
 names; holds for every definition that uses no reserved name, valid or not). -/
 theorem C19_dfa_corrupt_missing_row (R : Reserved σ α) (d : DFA σ α)
-    (hres : faValidateReserved R d.states d.syms = .ok ()) (q : σ) (hq : q ∈ d.states) :
+    (hres : faValidateReserved R d.states (akeys d.trans) d.syms = .ok ()) (q : σ) (hq : q ∈ d.states) :
     DFA.validateDef R { d with trans := d.trans.filter (fun kv => decide (kv.1 ≠ q)) } =
       .error (.lib .missingStateError) := by
-  show (faValidateReserved R d.states d.syms).andThen _ = _
-  rw [hres, Res.ok_andThen]
+  obtain ⟨h1, h2, h3⟩ := (faValidateReserved_eq_ok R _ _ _).mp hres
+  have hres' : faValidateReserved R d.states (akeys (d.trans.filter (fun kv => decide (kv.1 ≠ q)))) d.syms =
+      .ok () := by
+    refine (faValidateReserved_eq_ok R _ _ _).mpr ⟨h1, fun x hx => h2 x ?_, h3⟩
+    obtain ⟨kv, hkv, rfl⟩ := List.mem_map.mp hx
+    exact List.mem_map.mpr ⟨kv, (List.mem_filter.mp hkv).1, rfl⟩
+  show (faValidateReserved R d.states (akeys (d.trans.filter (fun kv => decide (kv.1 ≠ q)))) d.syms).andThen _ = _
+  rw [hres', Res.ok_andThen]
   have hv : DFA.rules.Violates ({ d with trans := d.trans.filter (fun kv => decide (kv.1 ≠ q)) } : DFA σ α)
       .missingRow := by
     refine ⟨q, hq, ?_⟩
@@ -579,8 +581,7 @@ theorem C19_dfa_corrupt_missing_row (R : Reserved σ α) (d : DFA σ α)
 theorem C19_dfa_corrupt_missing_symbol (R : Reserved σ α) (d : DFA σ α) (wf : DFA.WFDef R d)
     (hc : d.allowPartial = false) (q : σ) (hq : q ∈ d.states) (a : α) (ha : a ∈ d.syms) :
     DFA.validateDef R (dropSymbol d q a) = .error (.lib .missingSymbolError) := by
-  show (faValidateReserved R d.states d.syms).andThen _ = _
-  rw [wf.reservedOk, Res.ok_andThen]
+  rw [DFA.validateDef_eq_validate R wf (dropSymbol d q a) rfl rfl (by rw [dropSymbol_keys]; exact fun _ h => h)]
   have hno := (DFA.wf_iff d).mp wf.toWF
   -- every row of the new table is a sub-row of a row of the old one
   have hsub : ∀ kv' ∈ (dropSymbol d q a).trans, ∃ kv ∈ d.trans, kv'.1 = kv.1 ∧ ∀ e ∈ kv'.2, e ∈ kv.2 := by
@@ -627,8 +628,7 @@ theorem C19_dfa_corrupt_missing_symbol (R : Reserved σ α) (d : DFA σ α) (wf 
 theorem C19_dfa_corrupt_end_state (R : Reserved σ α) (d : DFA σ α) (wf : DFA.WFDef R d) (q : σ)
     (hq : q ∈ d.states) (a : α) (ha : a ∈ d.syms) (t : σ) (ht : t ∉ d.states) :
     DFA.validateDef R (setEntry d q a t) = .error (.lib .invalidStateError) := by
-  show (faValidateReserved R d.states d.syms).andThen _ = _
-  rw [wf.reservedOk, Res.ok_andThen]
+  rw [DFA.validateDef_eq_validate R wf (setEntry d q a t) rfl rfl (by rw [setEntry_keys]; exact fun _ h => h)]
   have hv : DFA.rules.Violates (setEntry d q a t) .unknownEndState := by
     obtain ⟨kv, hkv, hk⟩ := List.mem_map.mp (wf.rows q hq)
     refine ⟨(kv.1, ainsert a t kv.2), ?_, t, ?_, ht⟩
@@ -664,8 +664,7 @@ theorem C19_dfa_corrupt_end_state (R : Reserved σ α) (d : DFA σ α) (wf : DFA
 theorem C19_dfa_corrupt_symbol (R : Reserved σ α) (d : DFA σ α) (wf : DFA.WFDef R d) (q : σ)
     (hq : q ∈ d.states) (a : α) (ha : a ∉ d.syms) (t : σ) (ht : t ∈ d.states) :
     DFA.validateDef R (setEntry d q a t) = .error (.lib .invalidSymbolError) := by
-  show (faValidateReserved R d.states d.syms).andThen _ = _
-  rw [wf.reservedOk, Res.ok_andThen]
+  rw [DFA.validateDef_eq_validate R wf (setEntry d q a t) rfl rfl (by rw [setEntry_keys]; exact fun _ h => h)]
   have hv : DFA.rules.Violates (setEntry d q a t) .unknownSymbol := by
     obtain ⟨kv, hkv, hk⟩ := List.mem_map.mp (wf.rows q hq)
     refine ⟨(kv.1, ainsert a t kv.2), ?_, a, ?_, ha⟩
@@ -703,8 +702,9 @@ theorem C19_nfa_corrupt_initial_row (R : Reserved σ α) (n : NFA σ α) (wf : N
     (hlen : 1 < n.states.length) :
     NFA.validateDef R { n with trans := n.trans.filter (fun kv => decide (kv.1 ≠ n.init)) } =
       .error (.lib .missingStateError) := by
-  show (faValidateReserved R n.states n.syms).andThen _ = _
-  rw [wf.reservedOk, Res.ok_andThen]
+  rw [NFA.validateDef_eq_validate R wf ({ n with trans := n.trans.filter (fun kv => decide (kv.1 ≠ n.init)) } : NFA σ α) rfl rfl (fun x hx => by
+    obtain ⟨kv, hkv, rfl⟩ := List.mem_map.mp hx
+    exact List.mem_map.mpr ⟨kv, (List.mem_filter.mp hkv).1, rfl⟩)]
   have hno := (NFA.wf_iff n).mp wf.toWF
   have hv : NFA.rules.Violates ({ n with trans := n.trans.filter (fun kv => decide (kv.1 ≠ n.init)) } : NFA σ α)
       .initialNoRow := by
@@ -731,8 +731,7 @@ theorem C19_nfa_corrupt_end_state (R : Reserved σ α) (n : NFA σ α) (wf : NFA
     (hq : q ∈ akeys n.trans) (a : Option α) (ha : ∀ x, a = some x → x ∈ n.syms) (ts : List σ) (t : σ)
     (ht : t ∈ ts) (hnt : t ∉ n.states) :
     NFA.validateDef R (NFA.setEntry n q a ts) = .error (.lib .invalidStateError) := by
-  show (faValidateReserved R n.states n.syms).andThen _ = _
-  rw [wf.reservedOk, Res.ok_andThen]
+  rw [NFA.validateDef_eq_validate R wf (NFA.setEntry n q a ts) rfl rfl (by rw [NFA.setEntry_keys]; exact fun _ h => h)]
   have hno := (NFA.wf_iff n).mp wf.toWF
   have hv : NFA.rules.Violates (NFA.setEntry n q a ts) .unknownEndState := by
     obtain ⟨kv, hkv, hk⟩ := List.mem_map.mp hq
@@ -761,8 +760,7 @@ valid NFA → `InvalidSymbolError` ("unknown transition symbol"). -/
 theorem C19_nfa_corrupt_symbol (R : Reserved σ α) (n : NFA σ α) (wf : NFA.WFDef R n) (q : σ)
     (hq : q ∈ akeys n.trans) (a : α) (ha : a ∉ n.syms) (ts : List σ) (hts : ∀ t ∈ ts, t ∈ n.states) :
     NFA.validateDef R (NFA.setEntry n q (some a) ts) = .error (.lib .invalidSymbolError) := by
-  show (faValidateReserved R n.states n.syms).andThen _ = _
-  rw [wf.reservedOk, Res.ok_andThen]
+  rw [NFA.validateDef_eq_validate R wf (NFA.setEntry n q (some a) ts) rfl rfl (by rw [NFA.setEntry_keys]; exact fun _ h => h)]
   have hno := (NFA.wf_iff n).mp wf.toWF
   have hv : NFA.rules.Violates (NFA.setEntry n q (some a) ts) .unknownSymbol := by
     obtain ⟨kv, hkv, hk⟩ := List.mem_map.mp hq
@@ -792,41 +790,67 @@ theorem C19_nfa_corrupt_symbol (R : Reserved σ α) (n : NFA σ α) (wf : NFA.WF
 not, and although the new state has no row (`MissingStateError` is checked later). -/
 theorem C19_dfa_corrupt_none_state (R : Reserved σ α) (d : DFA σ α) (q : σ) (hq : R.isNone q = true) :
     DFA.validateDef R { d with states := q :: d.states } = .error (.lib .invalidStateError) := by
-  refine (DFA.defRules_correct R).corrupt_raises _ .reservedStateName ⟨q, by simp, hq⟩ ?_
+  refine (DFA.defRules_correct R).corrupt_raises _ .reservedStateName (Or.inl ⟨q, by simp, hq⟩) ?_
   intro r' _
   cases r' <;> first | exact Or.inl rfl | (right; rw [DFA.defRules_stage]; decide)
 
-/-- DFA / `""` added to the input symbols of a definition without a state named `None` →
+/-- DFA / a row keyed by `None` added to the transition table (fix f47420f) → `InvalidStateError`,
+for every definition — rows keyed by other names that are not states are accepted. -/
+theorem C19_dfa_corrupt_none_row_key (R : Reserved σ α) (d : DFA σ α) (q : σ) (hq : R.isNone q = true)
+    (row : List (α × σ)) :
+    DFA.validateDef R { d with trans := d.trans ++ [(q, row)] } = .error (.lib .invalidStateError) := by
+  refine (DFA.defRules_correct R).corrupt_raises _ .reservedStateName (Or.inr ⟨q, by simp [akeys], hq⟩) ?_
+  intro r' _
+  cases r' <;> first | exact Or.inl rfl | (right; rw [DFA.defRules_stage]; decide)
+
+/-- DFA / `""` added to the input symbols of a definition without a state or row named `None` →
 `InvalidSymbolError` (although the rows of a complete DFA now lack a symbol: `MissingSymbolError`
 is checked later). -/
 theorem C19_dfa_corrupt_empty_symbol (R : Reserved σ α) (d : DFA σ α)
-    (hn : ∀ q ∈ d.states, R.isNone q = false) (a : α) (ha : R.isEmptyStr a = true) :
+    (hn : ∀ q ∈ d.states, R.isNone q = false) (hk : ∀ q ∈ akeys d.trans, R.isNone q = false) (a : α)
+    (ha : R.isEmptyStr a = true) :
     DFA.validateDef R { d with syms := a :: d.syms } = .error (.lib .invalidSymbolError) := by
   refine (DFA.defRules_correct R).corrupt_raises _ .reservedInputSymbol ⟨a, by simp, ha⟩ ?_
   intro r' hv'
   cases r' <;> first
     | exact Or.inl rfl
     | (right; rw [DFA.defRules_stage]; decide)
-    | (exfalso; obtain ⟨q, hq, hq'⟩ := hv'; rw [hn q hq] at hq'; cases hq')
+    | (exfalso
+       rcases hv' with ⟨q, hq, hq'⟩ | ⟨q, hq, hq'⟩
+       · rw [hn q hq] at hq'; cases hq'
+       · rw [hk q hq] at hq'; cases hq')
 
 /-- NFA / `None` added to the state set → `InvalidStateError`, for every definition. -/
 theorem C19_nfa_corrupt_none_state (R : Reserved σ α) (n : NFA σ α) (q : σ) (hq : R.isNone q = true) :
     NFA.validateDef R { n with states := q :: n.states } = .error (.lib .invalidStateError) := by
-  refine (NFA.defRules_correct R).corrupt_raises _ .reservedStateName ⟨q, by simp, hq⟩ ?_
+  refine (NFA.defRules_correct R).corrupt_raises _ .reservedStateName (Or.inl ⟨q, by simp, hq⟩) ?_
   intro r' _
   cases r' <;> first | exact Or.inl rfl | (right; rw [NFA.defRules_stage]; decide)
 
-/-- NFA / `""` added to the input symbols of a definition without a state named `None` →
+/-- NFA / a row keyed by `None` added to the transition table → `InvalidStateError`, for every
+definition. -/
+theorem C19_nfa_corrupt_none_row_key (R : Reserved σ α) (n : NFA σ α) (q : σ) (hq : R.isNone q = true)
+    (row : List (Option α × List σ)) :
+    NFA.validateDef R { n with trans := n.trans ++ [(q, row)] } = .error (.lib .invalidStateError) := by
+  refine (NFA.defRules_correct R).corrupt_raises _ .reservedStateName (Or.inr ⟨q, by simp [akeys], hq⟩) ?_
+  intro r' _
+  cases r' <;> first | exact Or.inl rfl | (right; rw [NFA.defRules_stage]; decide)
+
+/-- NFA / `""` added to the input symbols of a definition without a state or row named `None` →
 `InvalidSymbolError`. -/
 theorem C19_nfa_corrupt_empty_symbol (R : Reserved σ α) (n : NFA σ α)
-    (hn : ∀ q ∈ n.states, R.isNone q = false) (a : α) (ha : R.isEmptyStr a = true) :
+    (hn : ∀ q ∈ n.states, R.isNone q = false) (hk : ∀ q ∈ akeys n.trans, R.isNone q = false) (a : α)
+    (ha : R.isEmptyStr a = true) :
     NFA.validateDef R { n with syms := a :: n.syms } = .error (.lib .invalidSymbolError) := by
   refine (NFA.defRules_correct R).corrupt_raises _ .reservedInputSymbol ⟨a, by simp, ha⟩ ?_
   intro r' hv'
   cases r' <;> first
     | exact Or.inl rfl
     | (right; rw [NFA.defRules_stage]; decide)
-    | (exfalso; obtain ⟨q, hq, hq'⟩ := hv'; rw [hn q hq] at hq'; cases hq')
+    | (exfalso
+       rcases hv' with ⟨q, hq, hq'⟩ | ⟨q, hq, hq'⟩
+       · rw [hn q hq] at hq'; cases hq'
+       · rw [hk q hq] at hq'; cases hq')
 
 /-- DPDA / `""` added to the stack symbols → `InvalidSymbolError`, for every definition (the
 first statement of `PDA.validate`). -/
@@ -935,7 +959,7 @@ theorem C19_validate_call_order :
   decide
 
 /-- The literals the checks compare against are the documented ones; the reserved names are
-`None` (state name) and the empty string (input symbol of a DFA / NFA, stack symbol of a PDA),
+`None` (state name or row key) and the empty string (input symbol of a DFA / NFA, stack symbol of a PDA),
 tested before anything else by `DFA.validate`, `NFA.validate` and `PDA.validate`. -/
 theorem C19_literals :
     Gen.Validate.dtmDirections = ["L", "N", "R"] ∧ Gen.Validate.ntmDirections = ["L", "N", "R"] ∧
@@ -945,7 +969,7 @@ theorem C19_literals :
     Gen.Slots.configDefaults = [("should_validate_automata", true), ("allow_mutable_automata", false)] ∧
     Gen.Validate.reservedNameChecks =
       [("FA._validate_reserved_names",
-          ["if None in self.states: raise InvalidStateError",
+          ["if None in self.states or None in self.transitions: raise InvalidStateError",
            "if '' in self.input_symbols: raise InvalidSymbolError"]),
        ("DFA.validate", ["self._validate_reserved_names()", "self._validate_transition_start_states()", "for",
           "self._validate_initial_state()", "self._validate_final_states()"]),
@@ -1074,6 +1098,9 @@ example : DFA.validateDef exR { exDFA with trans := [(0, [(0, 1)]), (1, [(0, 1),
 /-- `None` among the states wins over the missing row / the bad initial state -/
 example : DFA.validateDef exR { exDFA with states := [0, 1, 99], trans := exDFA.trans.tail } =
     .error (.lib .invalidStateError) := by decide
+/-- a row keyed by `None` is refused (fix f47420f), a row keyed by another non-state (7) is not -/
+example : DFA.validateDef exR { exDFA with trans := exDFA.trans ++ [(99, [(0, 0), (1, 0)])] } =
+    .error (.lib .invalidStateError) := by decide
 /-- `""` among the input symbols wins over the rows that now lack a symbol -/
 example : DFA.validateDef exR { exDFA with syms := [0, 1, 77] } = .error (.lib .invalidSymbolError) := by decide
 example : ({ exDFA with syms := [0, 1, 77] } : DFA Nat Nat).validate = .error (.lib .missingSymbolError) := by
@@ -1097,6 +1124,17 @@ example : DFA.validateDef Reserved.python x1DFA = .error (.lib .invalidStateErro
 def emptySymNFA : NFA (Option Nat) String :=
   { states := [some 0], syms := ["", "a"], trans := [(some 0, [(some "a", [some 0])])], init := some 0,
     finals := [some 0] }
+
+/-- F33: `DFA(states={0,1}, input_symbols={'a'}, transitions={0:{'a':1}, 1:{'a':1}, None:{'a':0}},
+initial_state=0, final_states={1})` — a row keyed by `None` passed `validate()` before f47420f and
+`isfinite()` / `len()` / `successor()` raised networkx's `ValueError: None cannot be a node`. -/
+def f33DFA : DFA (Option Nat) String :=
+  { states := [some 0, some 1], syms := ["a"],
+    trans := [(some 0, [("a", some 1)]), (some 1, [("a", some 1)]), (none, [("a", some 0)])],
+    init := some 0, finals := [some 1], allowPartial := false }
+
+example : f33DFA.validate = .ok () := by decide
+example : DFA.validateDef Reserved.python f33DFA = .error (.lib .invalidStateError) := by decide
 
 example : emptySymNFA.validate = .ok () := by decide
 example : NFA.validateDef Reserved.python emptySymNFA = .error (.lib .invalidSymbolError) := by decide
